@@ -156,11 +156,12 @@ example : Src.tbutils.Callpoint.tb_frame_str ⟨"a.py".toList, 3, "f".toList, " 
 
 def siteOf (c : Callpoint) : Str × Nat × Str := (c.path, c.lineno, c.func)
 
-/-- what ONE iteration of the loop of get_formatted does to `(ret, last_site, count)` -/
-def specStep (st : Str × Option (Str × Nat × Str) × Int) (f : Callpoint) : Str × Option (Str × Nat × Str) × Int :=
+/-- what ONE iteration of the loop of get_formatted does to its state; the translator lists the variables a loop
+    assigns in alphabetical order: `(count, last_site, ret)` -/
+def specStep (st : Int × Option (Str × Nat × Str) × Str) (f : Callpoint) : Int × Option (Str × Nat × Str) × Str :=
   if (some (siteOf f) != st.2.1) = true then
-    (st.1 ++ (Src.tbutils.repeated_line_note st.2.2 ++ tbFrameStr f), some (siteOf f), 1)
-  else (st.1 ++ (if st.2.2 + 1 ≤ 3 then tbFrameStr f else []), st.2.1, st.2.2 + 1)
+    (1, some (siteOf f), st.2.2 ++ (Src.tbutils.repeated_line_note st.1 ++ tbFrameStr f))
+  else (st.1 + 1, st.2.1, st.2.2 ++ (if st.1 + 1 ≤ 3 then tbFrameStr f else []))
 
 /-- the model's test "this entry starts a new run" -/
 def isNew (last : Option Callpoint) (f : Callpoint) : Bool :=
@@ -181,11 +182,11 @@ theorem newSite_iff (last : Option Callpoint) (f : Callpoint) :
     by_cases h1 : l.path = f.path <;> by_cases h2 : l.lineno = f.lineno <;> by_cases h3 : l.func = f.func <;>
       simp [h1, h2, h3, bne, Ne.symm] <;> (intros; simp_all [eq_comm])
 
-theorem foldl_specStep (step : Str × Option (Str × Nat × Str) × Int → Callpoint → Str × Option (Str × Nat × Str) × Int)
+theorem foldl_specStep (step : Int × Option (Str × Nat × Str) × Str → Callpoint → Int × Option (Str × Nat × Str) × Str)
     (hstep : ∀ st f, step st f = specStep st f) :
     ∀ (fs : List Callpoint) (ret : Str) (last : Option Callpoint) (cnt : Nat),
-      (fs.foldl step (ret, last.map siteOf, (cnt : Int))).1
-        ++ Src.tbutils.repeated_line_note (fs.foldl step (ret, last.map siteOf, (cnt : Int))).2.2
+      (fs.foldl step ((cnt : Int), last.map siteOf, ret)).2.2
+        ++ Src.tbutils.repeated_line_note (fs.foldl step ((cnt : Int), last.map siteOf, ret)).1
       = ret ++ bLoop last cnt fs := by
   intro fs
   induction fs with
@@ -213,9 +214,9 @@ theorem foldl_specStep (step : Str × Option (Str × Nat × Str) × Int → Call
 
 theorem lit_headerNL : "Traceback (most recent call last):\n".toList = headerNL := by decide
 
-theorem run_of_step (step : Str × Option (Str × Nat × Str) × Int → Callpoint → Str × Option (Str × Nat × Str) × Int)
+theorem run_of_step (step : Int × Option (Str × Nat × Str) × Str → Callpoint → Int × Option (Str × Nat × Str) × Str)
     (hstep : ∀ st f, step st f = specStep st f) (fs : List Callpoint) :
-    (fs.foldl step (headerNL, none, 0)).1 ++ Src.tbutils.repeated_line_note (fs.foldl step (headerNL, none, 0)).2.2
+    (fs.foldl step (0, none, headerNL)).2.2 ++ Src.tbutils.repeated_line_note (fs.foldl step (0, none, headerNL)).1
       = tbInfoFormat fs := by
   have := foldl_specStep step hstep fs headerNL none 0
   simpa [tbInfoFormat] using this
@@ -228,7 +229,7 @@ theorem src_get_formatted_eq_model (frames : List Callpoint) :
   simp only [lit_headerNL]
   apply run_of_step
   intro st f
-  obtain ⟨ret, last, cnt⟩ := st
+  obtain ⟨cnt, last, ret⟩ := st
   simp only [specStep, siteOf, src_tb_frame_str_eq_model]
   have hc : (last != some (f.path, f.lineno, f.func)) = (some (f.path, f.lineno, f.func) != last) := bne_comm
   try simp only [hc]
